@@ -1189,6 +1189,11 @@ done:
 	if (ct && ct != &typevoid && !(e->type->prop & PROPSCALAR))
 		error(&tok.loc, "cast operand must have scalar type");
 	*end = e;
+	for (e = r; e != *end; e = e->base) {
+		t = e->base->type;
+		if (e->type->kind == TYPEPOINTER && t->prop & PROPFLOAT || e->type->prop & PROPFLOAT && t->kind == TYPEPOINTER)
+			error(&tok.loc, "cannot cast between pointer and floating types");
+	}
 	return r;
 }
 
